@@ -239,7 +239,7 @@ def loop_inventory(ctx):
     return found
 
 
-def special_inputs():
+def special_inputs(slow=False):
     """Well-formed files of unusual content (built with the writers available in /venv)."""
     import datetime
     import io
@@ -333,6 +333,231 @@ def special_inputs():
             out.append(("eml", f"special:eml-text-attachments{'-bom' if bom else ''}", m.as_bytes()))
     except Exception:  # noqa
         pass
+    out += hostile_name_inputs()
+    out += encrypted_pdf_variants(slow)
+    out += pdf_security_parameter_grid()
+    return out
+
+
+HOSTILE_NAMES = ["{3F2504E0-4F89-11D3-9A0C-0305E82C3301}", "report {final}", "x{}", "notes{0}", "budget}", "~$draft{",
+                 "%s", "%(name)s", "//[backup]/q3", "//[x", "//srv\u2100/q3", "http://[::1]/a", "scheme://[x]/a",
+                 "https://h/p/a?web=1", "\\\\srv\\share\\a", "a\nb", "a\tb", "\uff0e\uff0e/a", "a\uff0fb", "\u202egnp",
+                 "a" * 300, "[1]", "a;b", "*", "?", "<x>", "|", "..", "../../up", "/abs/name", "C:\\dir\\f", " ", ""]
+
+
+def hostile_name_inputs():
+    """E-mails and archives whose attachment / member NAMES are hostile (sender-controlled strings reach the router,
+    path joins, format strings and regexes); contents are small and mostly valid."""
+    import io
+    import tarfile
+    import zipfile
+    from email.message import EmailMessage
+    out = []
+    named = []
+    for i, st in enumerate(HOSTILE_NAMES):
+        ext, payload = [(".txt", b"plain"), (".pdf", b"%PDF-1.4 junk"), (".docx", b"PK\x03\x04junk"), (".csv", b"a,b\n"),
+                        (".unknownext", b"x"), ("", b"x"), (".txt\n", b"plain"), (".tar.gz", b"\x1f\x8bjunk")][i % 8]
+        named.append((st + ext, payload))
+    for chunk in range(0, len(named), 8):
+        m = EmailMessage()
+        m["From"] = "a@x.org"; m["To"] = "b@x.org"; m["Subject"] = "names"; m["Date"] = "Mon, 01 Jan 2024 00:00:00 +0000"
+        m.set_content("body")
+        ok = 0
+        for fn, data in named[chunk:chunk + 8]:
+            try:
+                m.add_attachment(data, maintype="application", subtype="octet-stream", filename=fn)
+                ok += 1
+            except Exception:  # noqa  (name not encodable by the e-mail writer)
+                pass
+        try:
+            out.append(("eml", f"special:eml-hostile-attachment-names-{chunk // 8}", m.as_bytes()))
+        except Exception:  # noqa
+            pass
+    # raw header spellings the writer would not produce
+    raw = (b"From: a@x.org\nTo: b@x.org\nSubject: raw\nMIME-Version: 1.0\nContent-Type: multipart/mixed; boundary=B\n\n"
+           b"--B\nContent-Type: text/plain\n\nbody\n")
+    for fn in [b"//[backup]/q3.pdf", b"x{}.txt", b"=?utf-8?b?Ly9zcnbihIAvcTMucGRm?=", b"a\\\"b.txt", b"%zz.txt", b"\xff\xfe.txt"]:
+        raw += (b"--B\nContent-Type: application/octet-stream\nContent-Disposition: attachment; filename=\"" + fn +
+                b"\"\n\nplain\n")
+    out.append(("eml", "special:eml-hostile-attachment-names-raw", raw + b"--B--\n"))
+    buf = io.BytesIO()
+    with zipfile.ZipFile(buf, "w") as z:
+        for fn, data in named:
+            if fn:
+                z.writestr(fn, data)
+    out.append(("zip", "special:zip-hostile-member-names", buf.getvalue()))
+    buf = io.BytesIO()
+    with tarfile.open(fileobj=buf, mode="w") as t:
+        for fn, data in named:
+            if fn and "\x00" not in fn:
+                ti = tarfile.TarInfo(fn)
+                ti.size = len(data)
+                try:
+                    t.addfile(ti, io.BytesIO(data))
+                except Exception:  # noqa
+                    pass
+    out.append(("tar", "special:tar-hostile-member-names", buf.getvalue()))
+    try:
+        import sevenz_min
+        out.append(("7z", "special:7z-hostile-member-names",
+                    sevenz_min.write_7z([(fn, data) for fn, data in named if fn and "\x00" not in fn][:24])))
+    except Exception:  # noqa
+        pass
+    return out
+
+
+def encrypted_pdf_variants(slow=False):
+    """Encrypted PDFs (empty user password) and the same files with the numbers / names of the /Encrypt
+    dictionary replaced (valid shell, hostile security-handler parameters).  Every fuzz case is extracted twice
+    in one process, so error paths that leave state behind are reached too."""
+    import contextlib
+    import io
+    import re
+    out = []
+    try:
+        from pypdf import PdfWriter
+        from props import c08 as C8
+        plain = (common.REPO / "sharepoint2text" / "tests" / "resources" / "pdf" / "sample.pdf").read_bytes()
+    except Exception:  # noqa
+        return out
+    for alg in ["RC4-40", "RC4-128", "AES-128", "AES-256-R5"]:
+        try:
+            with (C8.independent_aes_for_writing() if alg.startswith("AES") else contextlib.nullcontext()):
+                w = PdfWriter(clone_from=io.BytesIO(plain))
+                w.encrypt(user_password="", owner_password="o", algorithm=alg)
+                bio = io.BytesIO()
+                w.write(bio)
+        except Exception:  # noqa
+            continue
+        data = bio.getvalue()
+        out.append(("pdf", f"special:pdf-enc-{alg}", data))
+        i = data.find(b"/Standard")
+        if i < 0:
+            continue
+        a, b = data.rfind(b"obj", 0, i), data.find(b"endobj", i)
+        seg = data[a:b]
+        subs = []
+        for m in re.finditer(rb"/(Length|V|R) (\d+)", seg):
+            w_ = len(m.group(2))
+            for v in {"Length": [40, 0, 8, 56, 64, 127, 16, 32], "V": [0, 1, 2, 3, 4, 5, 9], "R": [0, 2, 3, 4, 5, 6, 9]}[m.group(1).decode()]:
+                sv = str(v).encode()
+                if m.group(1) == b"R" and (v == 6 or alg == "AES-256-R5") and not slow:
+                    continue       # R6 key derivation: ~10 s per open in pure Python (thorough tier only)
+                if len(sv) <= w_ and sv != m.group(2):
+                    subs.append((m.start(2), m.end(2), sv.ljust(w_), f"{m.group(1).decode()}@{m.start()}={v}"))
+        for m in re.finditer(rb"/(AESV2|AESV3|V2|Identity)\b", seg):
+            for nv in [b"AESV2", b"AESV3", b"V2", b"None", b"X"]:
+                if len(nv) <= len(m.group(1)) and nv != m.group(1):
+                    subs.append((m.start(1), m.end(1), nv.ljust(len(m.group(1))), f"CFM@{m.start()}={nv.decode()}"))
+        for s0, s1, rep, lab in subs:
+            seg2 = seg[:s0] + rep + seg[s1:]
+            out.append(("pdf", f"special:pdf-enc-{alg}:{lab}", data[:a] + seg2 + data[b:]))
+    return out
+
+
+def _rc4(key: bytes, data: bytes) -> bytes:
+    S = list(range(256))
+    j = 0
+    for i in range(256):
+        j = (j + S[i] + key[i % len(key)]) & 255
+        S[i], S[j] = S[j], S[i]
+    i = j = 0
+    out = bytearray()
+    for c in data:
+        i = (i + 1) & 255
+        j = (j + S[i]) & 255
+        S[i], S[j] = S[j], S[i]
+        out.append(c ^ S[(S[i] + S[j]) & 255])
+    return bytes(out)
+
+
+_PDF_PAD = bytes.fromhex("28BF4E5E4E758A4164004E56FFFA01082E2E00B6D0683E802F0CA9FE6453697A")
+
+
+def pdf_std_security(V, R, length_bits, cfm, cf_len, write_length=True, payload=None):
+    """A one-page PDF with a standard security handler (revisions 2-4) whose /O and /U entries are CONSISTENT with
+    the empty user password for the given key length (PDF 32000-1 algorithms 2-5), so that the document opens and
+    the per-object keys are really used - for parameter combinations a conforming writer never emits
+    (AESV2 with a 40-bit key, V2 with 256 bits, ...).  The content stream holds arbitrary bytes."""
+    import hashlib
+    sys.path.insert(0, str(Path(__file__).parent)) if str(Path(__file__).parent) not in sys.path else None
+    n = max(1, (length_bits or 40) // 8) if R >= 3 else 5
+    ident = hashlib.md5(b"c01-pdf").digest()
+    P = -4
+    h = hashlib.md5(_PDF_PAD).digest()
+    if R >= 3:
+        for _ in range(50):
+            h = hashlib.md5(h).digest()
+    okey = h[:n]
+    O = _rc4(okey, _PDF_PAD)
+    if R >= 3:
+        for i in range(1, 20):
+            O = _rc4(bytes(b ^ i for b in okey), O)
+    h = hashlib.md5(_PDF_PAD + O + (P & 0xFFFFFFFF).to_bytes(4, "little") + ident).digest()
+    if R >= 3:
+        for _ in range(50):
+            h = hashlib.md5(h[:n]).digest()
+    key = h[:n]
+    if R == 2:
+        U = _rc4(key, _PDF_PAD)
+    else:
+        U = _rc4(key, hashlib.md5(_PDF_PAD + ident).digest())
+        for i in range(1, 20):
+            U = _rc4(bytes(b ^ i for b in key), U)
+        U += bytes(16)
+    enc = f"<< /Filter /Standard /V {V} /R {R}"
+    if write_length:
+        enc += f" /Length {length_bits}"
+    enc += f" /P {P} /O <{O.hex()}> /U <{U.hex()}>"
+    if V >= 4:
+        enc += f" /CF << /StdCF << /AuthEvent /DocOpen /CFM /{cfm} /Length {cf_len} >> >> /StmF /StdCF /StrF /StdCF"
+    enc += " >>"
+    if payload is None:
+        # a real content stream, encrypted with the per-object key (algorithm 1 / 1.A) whenever that key is usable
+        clear = b"BT /F1 12 Tf 20 100 Td (hello c01) Tj ET"
+        aes = V >= 4 and cfm in ("AESV2", "AESV3")
+        ok_ = hashlib.md5(key + (4).to_bytes(3, "little") + (0).to_bytes(2, "little") + (b"sAlT" if aes else b"")).digest()[:min(n + 5, 16)]
+        if V >= 4 and cfm in ("None", "Identity"):
+            payload = clear
+        elif aes:
+            try:
+                import c08_writers as W8
+                padn = 16 - len(clear) % 16
+                iv = bytes(range(16))
+                payload = iv + W8.aes_cbc_encrypt(ok_, iv, clear + bytes([padn]) * padn)
+            except Exception:  # noqa  (key length the cipher does not accept)
+                payload = bytes(range(48))
+        else:
+            payload = _rc4(ok_, clear)
+    objs = [b"<< /Type /Catalog /Pages 2 0 R >>", b"<< /Type /Pages /Kids [3 0 R] /Count 1 >>",
+            b"<< /Type /Page /Parent 2 0 R /MediaBox [0 0 200 200] /Contents 4 0 R /Resources << >> >>",
+            b"<< /Length %d >>\nstream\n" % len(payload) + payload + b"\nendstream", enc.encode()]
+    out = bytearray(b"%PDF-1.6\n%\xe2\xe3\xcf\xd3\n")
+    offs = []
+    for i, o in enumerate(objs, 1):
+        offs.append(len(out))
+        out += b"%d 0 obj\n" % i + o + b"\nendobj\n"
+    x = len(out)
+    out += b"xref\n0 %d\n0000000000 65535 f \n" % (len(objs) + 1)
+    for o in offs:
+        out += b"%010d 00000 n \n" % o
+    out += (b"trailer\n<< /Size %d /Root 1 0 R /Encrypt 5 0 R /ID [<%s><%s>] >>\nstartxref\n%d\n%%%%EOF\n"
+            % (len(objs) + 1, ident.hex().encode(), ident.hex().encode(), x))
+    return bytes(out)
+
+
+def pdf_security_parameter_grid():
+    out = []
+    for V, R in [(1, 2), (2, 3), (4, 4), (4, 3), (2, 4), (3, 3)]:
+        for L in ([40] if R == 2 else [40, 56, 64, 96, 128, 136, 256, 8]):
+            cfs = [("V2", 16)] if V < 4 else [("AESV2", 16), ("AESV2", 5), ("V2", 16), ("V2", 5), ("AESV3", 32), ("None", 16), ("Identity", 16)]
+            for cfm, cl in cfs:
+                for wl in ((True, False) if L == 40 else (True,)):
+                    try:
+                        out.append(("pdf", f"special:pdf-sec-V{V}R{R}-L{L}{'' if wl else '-omitted'}-{cfm}-{cl}",
+                                    pdf_std_security(V, R, L, cfm, cl, wl)))
+                    except Exception:  # noqa
+                        pass
     return out
 
 
@@ -439,7 +664,7 @@ def fuzz(ctx):
     import c01_fuzz
     rng = ctx.rng
     base = c01_fuzz.build_cases(rng, ctx.n(60, 400))
-    base = base + special_inputs() + image_member_cases(rng, ctx.n(40, 400))
+    base = base + special_inputs(slow=ctx.tier != "quick") + image_member_cases(rng, ctx.n(40, 400))
     cases = [(k, lab, b, None) for k, lab, b in base]
     cli_src = [c for c in base if c[1].startswith(("fixture:", "special:"))]
     muts = [c for c in base if not c[1].startswith("fixture:")]
@@ -469,6 +694,9 @@ def fuzz(ctx):
               "how": "extractor(io.BytesIO(input), 'fuzz.<key>') or cli.main([file] + cli_args)"}
         if oc == "foreign":
             ctx.finding(f"foreign:{fn}:{det.split(':')[0]}", f"{fn} let {det} escape on {lab} ({len(b)} bytes)", rp)
+        elif oc == "pollute":
+            ctx.finding(f"stdout-pollution:{fn}", f"{fn} on {lab} ({len(b)} bytes): {det} - the CLI can then not print "
+                        "'the result' / 'nothing' on stdout", rp)
         elif oc == "timeout":
             slow.append((i, k, lab, b, m))
         elif oc == "cli-bad":
@@ -477,6 +705,7 @@ def fuzz(ctx):
             ctx.finding(f"cli:{what}:{k}:{' '.join(m)}:{kind}", f"CLI contract broken for {lab} {m}: {det}", rp)
         if secs > 10:
             ctx.count("slow>10s")
+    ctx.extra["fuzz_timeouts_first_pass"] = [f"{k}:{lab}:{m}" for _, k, lab, _, m in slow][:20]
     for i, k, lab, b, m in slow[:2]:
         r2 = c01_fuzz.run_cases([(k, lab, b, m)], nproc=1, case_timeout=60, total_timeout=70)
         oc, det, secs = r2.get(0, ("timeout", "", 60))
